@@ -204,24 +204,46 @@ impl BlockingManager {
             return;
         }
         
-        // Only wake up one client at a time per key to prevent deadlock
-        // When an item is pushed, only the first waiting client should be notified
-        let client = {
-            let mut registry = self.registries[db].write().unwrap();
-            match registry.pop_first_waiter(key) {
-                Some(c) => c,
-                None => return, // No clients waiting on this key
-            }
+        // Only a hint that the event loop has work to do. Waiters stay registered
+        // until the event loop has really served them (or their timeout fires):
+        // the element may be gone again by then, one push may carry several
+        // elements, and the first waiter's connection may have disappeared.
+        let first = {
+            let registry = self.registries[db].read().unwrap();
+            registry.blocked_on_key.get(key).and_then(|clients| clients.front().cloned())
         };
         
-        // Send single wake-up request
-        // Additional items pushed will wake additional clients one by one
-        self.wake_queue.push(WakeupRequest {
-            conn_id: client.conn_id,
-            db,
-            key: key.to_vec(),
-            op_type: client.op_type,
-        });
+        if let Some(client) = first {
+            self.wake_queue.push(WakeupRequest {
+                conn_id: client.conn_id,
+                db,
+                key: key.to_vec(),
+                op_type: client.op_type,
+            });
+        }
+    }
+    
+    /// Every (database, key) that currently has waiting clients
+    pub fn keys_with_waiters(&self) -> Vec<(DatabaseIndex, Vec<u8>)> {
+        let mut keys = Vec::new();
+        for (db, registry) in self.registries.iter().enumerate() {
+            let registry = registry.read().unwrap();
+            for (key, clients) in registry.blocked_on_key.iter() {
+                if !clients.is_empty() {
+                    keys.push((db, key.clone()));
+                }
+            }
+        }
+        keys
+    }
+    
+    /// The client that has been waiting longest on a key (it stays registered)
+    pub fn first_waiter(&self, db: DatabaseIndex, key: &[u8]) -> Option<BlockedClient> {
+        if db >= self.registries.len() {
+            return None;
+        }
+        let registry = self.registries[db].read().unwrap();
+        registry.blocked_on_key.get(key).and_then(|clients| clients.front().cloned())
     }
     
     /// Process wake-up queue (called from main server loop)
